@@ -375,6 +375,11 @@ def _tooler(fn, captures):
     with _tooling_lock:
         if hasattr(fn, "__ptera_stack__"):
             st = fn.__ptera_stack__
+        elif getattr(fn, "__ptera_info__", None) is not None:
+            # Tooled with @tooled or tooled.inplace: every variable is
+            # instrumented already. Swapping in code that only instruments
+            # these captures would starve the other active overlays.
+            return fn
         else:
             st = fn.__ptera_stack__ = SyncedStackedTransforms(
                 fn, proceed=proceed
